@@ -13,10 +13,10 @@ use std::time::Duration;
 use vcore::refval::RefVal;
 use vcore::report::Report;
 
-const EVENTS: [&str; 25] = [
+const EVENTS: [&str; 26] = [
     "send->live", "send->dead", "send->never", "reg_send->registered", "reg_send->unknown", "exit->live", "monitor_exit->live", "rpc_reply",
     "unknown_control_99", "control_rejected_by_parser", "tick", "undecodable_body", "wrong_marker", "overlong_length", "premature_close", "close",
-    "silence_5s", "silence_9s", "silence_15s", "local:register_later", "reg_send->later", "send->crashed", "local:send_fails", "local:move_name", "local:register_taken_name",
+    "silence_5s", "silence_9s", "silence_15s", "local:register_later", "reg_send->later", "send->crashed", "local:send_fails", "local:move_name", "local:register_taken_name", "send->live_in_node_local_form",
 ];
 
 fn execute(seq: &[usize], ctx: &WorkerCtx) -> ExecResult { execute_split(seq, None, ctx) }
@@ -73,6 +73,15 @@ fn execute_split(seq: &[usize], split: Option<usize>, ctx: &WorkerCtx) -> ExecRe
             let mut is_frame = true;
             match name {
                 "send->live" => { nw.peer.send(&send_to(&d1, mark.clone())); delivered = Some(("p1".into(), format!("msg:{}", mark))); }
+                "send->live_in_node_local_form" => {
+                    // the recipient written the way this node itself may have handed it out: LOCAL_EXT (hash, then the plain pid)
+                    let mut b = vec![112u8, 131, 104, 3, 97, 2, 119, 0, 121, 0xAA, 0xBB, 0xCC, 0xDD, 1, 2, 3, 4];
+                    vcore::refcodec::w_term(&mut b, &d1);
+                    b.push(131);
+                    vcore::refcodec::w_term(&mut b, &mark);
+                    nw.peer.send(&vcore::proto::frame(&b, 4));
+                    delivered = Some(("p1".into(), format!("msg:{}", mark)));
+                }
                 "send->dead" => { nw.peer.send(&send_to(&d3, mark.clone())); }
                 "send->crashed" => { nw.peer.send(&send_to(&d4, mark.clone())); }
                 "send->never" => { nw.peer.send(&send_to(&never, mark.clone())); }
